@@ -177,6 +177,7 @@ Atomic<'a, ItemType, BUFFER_SIZE, MAX_STREAMS> {
                 #[cfg(feature = "verif")] crate::verif::point(crate::verif::MULTI_FANOUT_BEFORE_PUBLISH);
                 match channel.publish_movable(arc_item.clone()) {
                     (Some(len_after_publishing), _) => {
+                        #[cfg(feature = "verif")] crate::verif::note(crate::verif::MULTI_LEN_AFTER, ((*stream_id as u64) << 32) | len_after_publishing.get() as u64);
                         if len_after_publishing.get() <= 2 {
                             #[cfg(feature = "verif")] crate::verif::point(crate::verif::MULTI_FANOUT_BEFORE_WAKE);
                             self.streams_manager.wake_stream(*stream_id);
